@@ -1209,6 +1209,15 @@ func c05RunFile(c *ctx, f *c05File, d *Driver, impl *[]string) {
 			d.add("c05.spec %d %s", bin, a)
 			*impl = append(*impl, c05Digest(got))
 		}
+		if sizes[i] < 3000 && (s.PadJunk == 0 || len(s.Codes)%2 == 0) {
+			// sam.NewSeq (contract) against the model's `contract`
+			sq := make([]byte, len(f.recs[i].Seq.Seq))
+			for k, dd := range f.recs[i].Seq.Seq {
+				sq[k] = byte(dd)
+			}
+			d.add("c05.contract %s", hexs(s.Letters))
+			*impl = append(*impl, hexs(sq))
+		}
 		if sizes[i] < 3000 {
 			va, vi := "", ""
 			ov := guard(func() { va, vi = c05ViewLine(f.recs[i]) })
